@@ -265,3 +265,159 @@ Theorem C06_rfc_instance_hash_laws :
 Proof. exact (rfc_hash_ok). Qed.
 Print Assumptions C06_rfc_instance_hash_laws.
 
+
+(* ---------------------------------------------------------------------------------------------------
+   More of the literals the model hard-codes, re-extracted from the CURRENT sources on every run (tools/extract.py;
+   coq/gen/extracted_meta.json records how each item was located) and tied to the MODEL'S OWN definitions: a changed
+   offset, endianness, length or argument order in the Rust breaks one of the equations below. *)
+
+(* an integer field of [width] bytes, big-endian iff [be] = 1, written with the model's own encoders *)
+Definition x_int_field (be width x : N) : bytes :=
+  if be =? 1 then (if width =? 8 then be64 x else if width =? 4 then be32 x else [])
+  else (if width =? 8 then le64 x else if width =? 4 then le32 x else []).
+
+(* chunk header and authenticated data: offsets, widths, endianness, flag values, counter, `prev_read as u32` *)
+Theorem C06_chunk_header_constants :
+  (* encryptor: counter [0..8) BE, flag [8..12) BE, length [12..16) BE; adjacent, filling the header *)
+  x_enc_hdr_ctr_lo = 0 /\ x_enc_hdr_ctr_hi = 8 /\ x_enc_hdr_flag_lo = 8 /\ x_enc_hdr_flag_hi = 12 /\
+  x_enc_hdr_len_lo = 12 /\ x_enc_hdr_len_hi = 16 /\
+  x_enc_hdr_ctr_hi = x_enc_hdr_flag_lo /\ x_enc_hdr_flag_hi = x_enc_hdr_len_lo /\ x_enc_hdr_len_hi = x_enc_chunk_header_len /\
+  x_enc_hdr_ctr_hi - x_enc_hdr_ctr_lo = x_enc_hdr_ctr_width /\ x_enc_hdr_flag_hi - x_enc_hdr_flag_lo = x_enc_hdr_flag_width /\
+  x_enc_hdr_len_hi - x_enc_hdr_len_lo = x_enc_hdr_len_width /\
+  x_enc_hdr_ctr_be = 1 /\ x_enc_hdr_flag_be = 1 /\ x_enc_hdr_len_be = 1 /\
+  x_enc_hdr_ctr_width = 8 /\ x_enc_hdr_flag_width = 4 /\ x_enc_hdr_len_width = 4 /\
+  x_enc_flag_last = 1 /\ x_enc_flag_more = 0 /\ x_enc_flag_last = flag true /\ x_enc_flag_more = flag false /\
+  x_enc_counter_init = 0 /\ x_enc_counter_step = 1 /\
+  x_enc_len_cast_u32 = 1 /\ x_enc_len_is_sealed_len = 1 /\ x_enc_len_is_read_result = 1 /\ x_enc_read_buf_is_chunk_size = 1 /\
+  (* the model's record IS the extracted layout *)
+  (forall (P : prims) (key aad : bytes) (n : N) (is_last : bool) (c : bytes),
+     record P key aad n is_last c =
+       x_int_field x_enc_hdr_ctr_be x_enc_hdr_ctr_width n
+       ++ x_int_field x_enc_hdr_flag_be x_enc_hdr_flag_width (if is_last then x_enc_flag_last else x_enc_flag_more)
+       ++ x_int_field x_enc_hdr_len_be x_enc_hdr_len_width (N.of_nat (length c))
+       ++ p_seal P key (noise_nonce n) (rec_ad aad is_last c) c) /\
+  (* authenticated data = aad ++ the SAME flag bytes ++ the SAME length bytes *)
+  x_enc_ad_extra = 8 /\ x_enc_ad_flag_off = 0 /\ x_enc_ad_flag_end = 4 /\ x_enc_ad_len_off = 4 /\ x_enc_ad_len_end = 8 /\
+  x_enc_ad_flag_end - x_enc_ad_flag_off = x_enc_hdr_flag_width /\ x_enc_ad_len_end - x_enc_ad_len_off = x_enc_hdr_len_width /\
+  x_enc_ad_len_end = x_enc_ad_extra /\ x_enc_ad_shares_header_bytes = 1 /\
+  (forall (aad : bytes) (is_last : bool) (c : bytes),
+     rec_ad aad is_last c =
+       aad ++ x_int_field x_enc_hdr_flag_be x_enc_hdr_flag_width (if is_last then x_enc_flag_last else x_enc_flag_more)
+           ++ x_int_field x_enc_hdr_len_be x_enc_hdr_len_width (N.of_nat (length c))) /\
+  x_enc_seal_roles = [RKey; RCounter; RAuthData; RChunkBody] /\ x_enc_chunk_sink_roles = [RHeader; RSealed; RFlush] /\
+  (* decryptor: the same two fields at the same places, the same authenticated data *)
+  x_dec_hdr_flag_lo = x_enc_hdr_flag_lo /\ x_dec_hdr_flag_hi = x_enc_hdr_flag_hi /\
+  x_dec_hdr_len_lo = x_enc_hdr_len_lo /\ x_dec_hdr_len_hi = x_enc_hdr_len_hi /\ x_dec_hdr_len_hi = x_dec_chunk_header_len /\
+  x_dec_hdr_flag_be = x_enc_hdr_flag_be /\ x_dec_hdr_len_be = x_enc_hdr_len_be /\
+  x_dec_hdr_flag_width = x_enc_hdr_flag_width /\ x_dec_hdr_len_width = x_enc_hdr_len_width /\
+  (forall h : bytes, hdr_last h = firstn (N.to_nat (x_dec_hdr_flag_hi - x_dec_hdr_flag_lo)) (skipn (N.to_nat x_dec_hdr_flag_lo) h)) /\
+  (forall h : bytes, hdr_len h = skipn (N.to_nat x_dec_hdr_len_lo) h) /\
+  x_dec_last_flag = x_enc_flag_last /\
+  x_dec_ad_extra = x_enc_ad_extra /\ x_dec_ad_flag_off = x_enc_ad_flag_off /\ x_dec_ad_flag_end = x_enc_ad_flag_end /\
+  x_dec_ad_len_off = x_enc_ad_len_off /\ x_dec_ad_len_end = x_enc_ad_len_end /\ x_dec_ad_shares_header_bytes = 1 /\
+  x_dec_counter_init = x_enc_counter_init /\ x_dec_counter_step = x_enc_counter_step /\
+  x_dec_open_roles = [RKey; RCounter; RAuthData; RChunkBody] /\ x_dec_chunk_sink_roles = [RPlaintext; RFlush] /\
+  x_dec_open_is_what_was_read = 1.
+Proof.
+  repeat split; intros; try reflexivity;
+    match goal with b : bool |- _ => destruct b; reflexivity end.
+Qed.
+Print Assumptions C06_chunk_header_constants.
+
+(* which value goes where in the hkdf / scrypt / noise / chunk calls of encrypt.rs and decrypt.rs *)
+Definition x_role_const (r : role) : N := match r with RConst v => v | _ => 0 end.
+
+Theorem C06_call_role_constants :
+  x_enc_hkdf_roles = [REmpty; RPayloadKey; RHandshakeHash; RConst 32] /\ x_dec_hkdf_roles = x_enc_hkdf_roles /\
+  (* file_key of the model = hkdf with the arguments in the extracted order *)
+  (forall (P : prims) (payload hh : bytes),
+     file_key P payload hh =
+     match x_enc_hkdf_roles with
+     | [a; b; c; d] =>
+       let env := fun r => match r with RPayloadKey => payload | RHandshakeHash => hh | _ => [] end in
+       p_hkdf P (env a) (env b) (env c) (N.to_nat (x_role_const d))
+     | _ => []
+     end) /\
+  x_enc_scrypt_roles = [RPassword; RSalt; RConst x_lib_scrypt_n; RConst x_lib_scrypt_r; RConst x_lib_scrypt_p; RConst 32] /\
+  x_dec_scrypt_roles = x_enc_scrypt_roles /\
+  (* kdf of the model = scrypt with the arguments in the extracted order *)
+  (forall (P : prims) (pw salt : bytes),
+     kdf P pw salt =
+     match x_enc_scrypt_roles with
+     | [a; b; n; r; p; l] =>
+       let env := fun x => match x with RPassword => pw | RSalt => salt | _ => [] end in
+       p_scrypt P (env a) (env b) (x_role_const n) (x_role_const r) (x_role_const p) (N.to_nat (x_role_const l))
+     | _ => []
+     end) /\
+  x_enc_noise_roles = [RSender; RSenderPub; RRecipient; REphemeral; REphemeralPub; RPrologue; RPayloadKey] /\
+  x_dec_noise_roles = [RRecipient; RRecipientPub; RPrologue; RHandshakeMsg] /\
+  x_enc_key_chunks_roles = [RSrc; RDst; RFileKey; REmpty; RConst x_lib_chunk_size] /\
+  x_dec_key_chunks_roles = x_enc_key_chunks_roles /\
+  x_enc_pass_chunks_roles = [RSrc; RDst; RPassKey; RMagic; RConst x_lib_chunk_size] /\
+  x_dec_pass_chunks_roles = x_enc_pass_chunks_roles /\
+  (* what is written / tested first *)
+  x_enc_key_header_roles = [RPrologue; RNoiseMsg; RFlush] /\ x_enc_pass_header_roles = [RMagic; RSalt; RFlush] /\
+  x_dec_key_format_roles = [RPrologue] /\ x_dec_pass_format_roles = [RMagic] /\ x_enc_kdf_before_header = 1 /\
+  (* password mode: salt / key lengths; fresh payload key *)
+  x_enc_salt_len = 32 /\ x_enc_salt_len = x_dec_salt_len /\ x_enc_scrypt_len = x_lib_payload_key_len /\
+  x_enc_fresh_payload_len = x_lib_payload_key_len /\ x_enc_hkdf_len = x_lib_payload_key_len.
+Proof. repeat split; intros; reflexivity. Qed.
+Print Assumptions C06_call_role_constants.
+
+(* the AEAD nonce and the wrappers around the primitives *)
+Definition x_pick (env : list bytes) (nonce : bytes) (r : role) : bytes :=
+  match r with RParam i => nth (N.to_nat i) env [] | RNonce => nonce | _ => [] end.
+
+Theorem C06_nonce_constants :
+  x_noise_nonce_len_dec = x_noise_nonce_len /\ x_noise_nonce_end_enc = x_noise_nonce_len /\ x_noise_nonce_end_dec = x_noise_nonce_len /\
+  x_noise_nonce_le_enc = 1 /\ x_noise_nonce_le_dec = 1 /\ x_noise_nonce_ctr_width_enc = 8 /\ x_noise_nonce_ctr_width_dec = 8 /\
+  x_noise_nonce_end_enc - x_noise_nonce_off_enc = x_noise_nonce_ctr_width_enc /\
+  x_noise_nonce_end_dec - x_noise_nonce_off_dec = x_noise_nonce_ctr_width_dec /\
+  (* the model's nonce IS zeros up to the extracted offset, then the counter in the extracted endianness *)
+  (forall n : N, noise_nonce n = zeros (N.to_nat x_noise_nonce_off_enc) ++ x_int_field (1 - x_noise_nonce_le_enc) x_noise_nonce_ctr_width_enc n) /\
+  (forall n : N, noise_nonce n = zeros (N.to_nat x_noise_nonce_off_dec) ++ x_int_field (1 - x_noise_nonce_le_dec) x_noise_nonce_ctr_width_dec n) /\
+  (* (key, counter, ad, data) -> ietf (key, nonce, data, ad) *)
+  x_lib_enc_noise_to_ietf = [RParam 0; RNonce; RParam 3; RParam 2] /\ x_lib_dec_noise_to_ietf = x_lib_enc_noise_to_ietf /\
+  (forall (P : prims) (key : bytes) (n : N) (ad pt : bytes),
+     chapoly_encrypt_noise P key n ad pt =
+     match map (x_pick [key; []; ad; pt] (noise_nonce n)) x_lib_enc_noise_to_ietf with
+     | [a; b; c; d] => chapoly_encrypt_ietf P a b c d
+     | _ => Panic PUnwrap
+     end) /\
+  (forall (P : prims) (key : bytes) (n : N) (ad ct : bytes),
+     chapoly_decrypt_noise P key n ad ct =
+     if negb (Nat.eqb (length key) (N.to_nat x_lib_dec_noise_key_len)) then Panic PAssert else
+     match map (x_pick [key; []; ad; ct] (noise_nonce n)) x_lib_dec_noise_to_ietf with
+     | [a; b; c; d] => chapoly_decrypt_ietf P a b c d
+     | _ => Panic PUnwrap
+     end) /\
+  (* ietf (key, nonce, data, aad) -> orion (key, nonce, data, Some aad, out) *)
+  x_lib_enc_ietf_to_orion = [RParam 0; RParam 1; RParam 2; RSome (RParam 3); ROut] /\ x_lib_dec_ietf_to_orion = x_lib_enc_ietf_to_orion /\
+  x_lib_dec_ietf_min_len = x_lib_tag_size /\ x_dec_ct_read_extra = x_lib_tag_size /\ x_dec_buf_extra = x_lib_tag_size /\
+  x_lib_hkdf_to_orion = [RParam 0; RParam 1; RSome (RParam 2); ROut] /\ x_lib_hkdf_out_len_is_param = 1.
+Proof. repeat split; intros; reflexivity. Qed.
+Print Assumptions C06_nonce_constants.
+
+(* Noise: hkdf_noise counters, handshake lengths, the arguments of init_x *)
+Theorem C06_noise_constants :
+  x_lib_hkdf_noise_c1 = [1] /\ x_lib_hkdf_noise_c2_tail = [2] /\ x_lib_hkdf_noise_c2_len = 33 /\
+  x_lib_hkdf_noise_c2_split = x_noise_hash_len /\ x_lib_hkdf_noise_shape_ok = 1 /\
+  N.of_nat (length x_lib_hkdf_noise_c2_tail) + x_lib_hkdf_noise_c2_split = x_lib_hkdf_noise_c2_len /\
+  (forall (P : prims) (ck ikm : bytes),
+     hkdf_noise P ck ikm =
+     let temp := p_hmac P ck ikm in
+     let o1 := p_hmac P temp x_lib_hkdf_noise_c1 in
+     (o1, p_hmac P temp (o1 ++ x_lib_hkdf_noise_c2_tail))) /\
+  x_noise_s_len_plain = x_noise_dh_len /\ x_noise_s_len_keyed = x_noise_dh_len + x_lib_tag_size /\
+  (* 128 = e + encrypted s + encrypted payload key; 96 = the same with an empty payload *)
+  x_dec_handshake_len = x_noise_dh_len + x_noise_s_len_keyed + (x_lib_payload_key_len + x_lib_tag_size) /\
+  x_noise_guard_min = x_noise_dh_len + x_noise_s_len_keyed + x_lib_tag_size /\
+  x_noise_hash_output_len = x_noise_hash_len /\ x_lib_handshake_hash_len_enc = x_noise_hash_len /\
+  x_lib_handshake_hash_len_dec = x_noise_hash_len /\ x_dec_prologue_len = N.of_nat (length x_prologue) /\
+  x_dec_magic_len = N.of_nat (length x_pass_file_magic) /\
+  x_lib_noise_enc_initx_roles = [RTrue; RPrologue; RSender; RSenderPub; REphemeral; REphemeralPub; RSome RRecipient] /\
+  x_lib_noise_dec_initx_roles = [RFalse; RPrologue; RRecipient; RRecipientPub; RNone; RNone; RNone] /\
+  x_lib_noise_enc_msg_role = [RPayloadKey] /\ x_lib_noise_dec_msg_role = [RHandshakeMsg] /\
+  x_noise_nonce_step_enc = 1 /\ x_noise_nonce_step_dec = 1.
+Proof. repeat split; intros; reflexivity. Qed.
+Print Assumptions C06_noise_constants.
